@@ -541,7 +541,8 @@ def calculate_1d_bins(
         binning = numpy_binning(array, bin_count, **kwargs)
     elif isinstance(_, BinningBase):
         binning = _
-    elif isinstance(_, int):
+    elif isinstance(_, (int, np.integer)):
+        _ = int(_)  # (a bin count that comes out of a numpy computation)
         binning = numpy_binning(array, _, **kwargs)
     elif isinstance(_, str):
         # What about the ranges???
